@@ -21,7 +21,9 @@ echo "tests: $RUN in $PKGS"
 # the suite without the demo files
 for f in $DEMOS; do rm -f $W/$f; done
 # timing-sensitive tests of the repository flake under load (on the pinned tree too): up to 3 attempts
-SUITE=1; for attempt in 1 2 3; do ( cd $W && go test -vet=off -count=1 -timeout 180s ./... > /tmp/sv-$NAME.suite.log 2>&1 ); SUITE=$?; [ $SUITE -eq 0 ] && break; done
+# TestGarbageCollectUpload is racy by its own comment ("implicitly racy") and hangs in its cleanup when it loses the race on a busy machine: it runs alone, up to 5 attempts
+SUITE=1; for attempt in 1 2 3; do ( cd $W && go test -vet=off -count=1 -timeout 180s -skip 'TestGarbageCollectUpload' ./... > /tmp/sv-$NAME.suite.log 2>&1 ); SUITE=$?; [ $SUITE -eq 0 ] && break; done
+if [ $SUITE -eq 0 ]; then SUITE=1; for attempt in 1 2 3 4 5; do ( cd $W && go test -vet=off -count=1 -timeout 60s -run 'TestGarbageCollectUpload' ./internal/store >> /tmp/sv-$NAME.suite.log 2>&1 ); SUITE=$?; [ $SUITE -eq 0 ] && break; done; fi
 echo "demo on clean tree rc=$CLEAN (want 0); demo with patch rc=$PATCHED (want !=0); suite with patch rc=$SUITE (want 0)"
 if [ $CLEAN -eq 0 ] && [ $PATCHED -ne 0 ] && [ $SUITE -eq 0 ]; then
   D=/verif/seeded/$NAME; mkdir -p $D
